@@ -657,3 +657,42 @@ def rule_status_as_boolean(ctx):
             ctx.holds("STATUSBOOL", "STATUSBOOL:%s:%s" % (f.name, v), f.where(), "`%s` is compared with SUCCEED/FAIL explicitly wherever it is tested" % v, nontrivial=False)
     ctx.floor("STATUSBOOL", 20, n, "(locals that only take the values SUCCEED and FAIL)")
     return n
+
+
+# ---------------------------------------------------------------------------------------------------------------------
+def rule_nc_name_equal(ctx):
+    """NCNAMEEQ (C10, C15): names in the SD/netCDF layer are counted strings (NC_string: len, values), not NUL-terminated ones.
+    Two names are equal when the lengths are equal and the bytes agree.  Every `strncmp(x, s->values, n) == 0` that decides
+    a look-up by name (attribute, dimension, variable) is therefore conjoined with `<length of x> == s->len`; without the
+    length test the look-up is a prefix match and `units` finds `units_si`."""
+    prog = ctx.prog
+    n = 0
+    for f in prog.lib_funcs():
+        if not f.rel.startswith("mfhdf/src/"):
+            continue
+        conds = []
+
+        def vis(nn, st):
+            if nn[0] in ("if", "while"):
+                conds.append((nn[1], nn[4] if nn[0] == "if" else nn[3]))
+            return True
+        ast_walk(f.raw.get("ast"), vis)
+        ordn = 0
+        for c, line in conds:
+            cmps = [x for x in walk(c, True) if x[0] == "call" and x[1] == "strncmp" and len(x[3]) >= 3 and not is_int(x[3][2])
+                    and any(y[0] == "mem" and y[2] == "values" for a in x[3][:2] for y in walk(a, True))]
+            for x in cmps:
+                ordn += 1
+                n += 1
+                key = "NCNAMEEQ:%s#%d" % (f.name, ordn)
+                # the counted string whose bytes are compared
+                sbases = [render(strip(y[1])) for a in x[3][:2] for y in walk(a, True) if y[0] == "mem" and y[2] == "values"]
+                sbase = sbases[-1]
+                lens = [y for y in walk(c, True) if y[0] == "bin" and y[1] == "==" and any(
+                    z[0] == "mem" and z[2] == "len" and render(strip(z[1])) in sbases for side in (y[2], y[3]) for z in walk(side, True))]
+                if lens:
+                    ctx.holds("NCNAMEEQ", key, f.where(line), "`%s` and the bytes are compared" % render(lens[0])[:60], nontrivial=True)
+                else:
+                    ctx.violated("NCNAMEEQ", key, f.where(line), "`%s` decides a look-up by name without comparing the length with `%s->len`: the look-up is a prefix match" % (render(x)[:70], sbase))
+    ctx.floor("NCNAMEEQ", 8, n, "(byte comparisons against counted names in the SD layer)")
+    return n
